@@ -355,16 +355,15 @@ class C20(Property):
         'uncert_denotes/uncert_digits/uncert_shortest/uncert_layouts_denote hold for exact arithmetic only.  For the real code the clause '
         '"value rounded at the uncertainty\'s last kept digit, uncertainty to the requested digits, shorter layout" is decided by the oracle '
         '(with the stated float slack of 2^-50 relative) and by the exact-string correspondence with the float-faithful mirror',
-        'unit handling of _number_to_X: unit_of(number), to_unitless(number, unit), rescaling of an explicit or carried (UncertainQuantity) '
-        'uncertainty to the requested unit, and the unit text itself (compound units are opaque strings in the model): oracle reads value and '
+        'unit handling of _number_to_X: unit_of(number), to_unitless(number, unit) are third-party; proved for the model: a common factor 10^k on value and '
+        'uncertainty leaves the printed integers unchanged and shifts both exponents (uncert_decimal_rescale); non-decimal factors (km/h, hours) and that the '
+        'code applies the SAME factor to an explicit or carried (UncertainQuantity) uncertainty, and the unit text itself (compound units are opaque strings in the model): oracle reads value and '
         'uncertainty back in the printed unit and compares with the given quantity; correspondence',
         'as_per_substance_html_table / Table._html: Substance.from_formula and html_name, the Python container protocols (cont[k] raising TypeError / '
         'IndexError for list, tuple, ndarray; dict, OrderedDict, QuantityDict lookups; numpy element access keeping the unit of an array Quantity), '
         'unit_of / html_of_unit of each cell.  Proved for the model: positional data pairs by position for distinct keys, rows in substance order, each cell '
         'formatted from its own magnitude and unit (table_positional_cell, table_rows_spec); that the real containers behave like the model\'s keyed / '
         'positional containers is decided by correspondence and by the oracle (every cell read back: value given for THAT substance in ITS unit, unit after it)',
-        'string-level reading of the LaTeX / unicode / HTML mark-up (theorems give the structure: significand text, integer exponent, fixed '
-        'templates; the mark-up is read back by the oracle only)',
         'fmt given as a callable: the text the callback returns is an opaque input (callback_text_spec proves what _number_to_X does with any such text); '
         'that Python calls fmt(mag) / fmt(mag, uncertainty) with the unitless magnitude is decided by correspondence and oracle (11 + 5 callbacks incl. malformed texts)',
         'is_unitless / dimensional simplification of ratio units (g/kg, cm/m, mM/M): the unit text is opaque in the model; that a scaled ratio unit is '
